@@ -7,6 +7,18 @@ ROOT = os.path.dirname(os.path.dirname(os.path.abspath(__file__)))
 ALL = ["C%02d" % i for i in range(1, 21)]
 
 CHECKS = {
+    "C01": dict(
+        cat="model_checking", ref="5 (C01)",
+        text="Every row-producing family is checked on transform inputs X' that differ from the training data, with the oracle of that "
+             "family's specification: Ngram.tla / Skipgram.tla / EdgeList.tla enumerate (X, X', configuration) with unseen tokens / "
+             "labels, empty and longer items and compare rows, shapes and column dictionaries; LZ.tla and Trace_BPE.tla decide "
+             "recorded transforms of new strings (unseen phrases, characters above max_char_code); Histogram.tla rows for values "
+             "outside the training range; Cooc.tla with the unseen tokens as its excluded set decides the token x token matrices of "
+             "transform after a fit on a vocabulary corpus (deleted or masked); Protocol.tla clauses one_row_per_item / "
+             "width_fixed_at_fit are validated on recorded histories of KDE, Distribution, Histogram, the matrix transformers and "
+             "the Wasserstein family (methods x input formats) for items never seen in fit.",
+        note="Aggregates the bounded instance spaces of C06, C09, C16, C20 plus the new Cooc-with-unseen-tokens and protocol parts.",
+        tech="functional TLA+ specifications (exact label-wise oracles) + protocol trace validation for float-valued producers"),
     "C02": dict(
         cat="model_checking", ref="5 (C02), 4.17",
         text="Protocol.tla specifies the estimator life cycle and what an observation of a call may show (row classes consistent "
@@ -93,6 +105,17 @@ CHECKS = {
         note="Named precondition: some adjacent pair occurs twice (else training raises). The greedy pair choice is not part "
              "of the property and not constrained. Random corpora over {a,b}, {a,b,c} and unicode strings incl. lengths 0/1.",
         tech="TLA+ state machine (nondeterministic merges) model-checked + trace validation of recorded fits"),
+    "C10": dict(
+        cat="model_checking", ref="5 (C10)",
+        text="Design: the algorithmic specifications carry the access invariants of the transcribed kernels - CooBuffer.tla NoOOB / Room "
+             "/ Layout, EMStep.tla NoOOB (guarded searchsorted read), BPE.tla ContractionSafe (loop variable assigned, index in "
+             "range), SparseOps.tla FitsBuffer, SlidingWindow.tla InRange - model-checked on bounded instances with a vacuity "
+             "control (the unguarded variants must violate them). Binding: instances generated from the specifications (accumulator "
+             "histories, EM steps with pruned cells, pipelines with radii larger than the sequences / empty documents / 1k "
+             "buffers, BPE and LZ on strings of length 0-2, sparse helpers, distances, sliding windows) are executed compiled, "
+             "with NUMBA_BOUNDSCHECK=1 and with NUMBA_DISABLE_JIT=1 and every result must equal the compiled one.",
+        note="Model checking for the five transcribed kernels; all other kernels are covered through the checked-mode executions only.",
+        tech="algorithmic TLA+ specifications with access invariants + differential execution in bounds-checked / interpreted modes"),
     "C11": dict(
         cat="model_checking", ref="5 (C11), 4.6",
         text="EMStep.tla gives one EM iteration twice - declaratively (each occurrence distributes one unit of mass over the cells of "
